@@ -717,6 +717,78 @@ def representation_oracle(res, rng, tier):
                                "identity": list(vals[False]), "log": list(vals[True])})
 
 
+def shared_underlying_oracle(res, rng, tier):
+    """SEVERAL products that share ONE underlying object (a call and a put on the same Spot(), a control variate sharing the main
+    product's underlying), valued in an interleaved order with a representation chosen per valuation (each valuation starts with
+    product.update(rep), as the engines do): every value must be the value of a fresh product with a fresh underlying."""
+    import numpy as np
+    from rpylib.product import underlying as U
+    from rpylib.product.product import Product, ControlVariates
+    und_kinds = [("spot",), ("asian",), ("logspot",), ("libors",), ("dt", -0.5)]
+    for it in range(80 if tier == "quick" else 800):
+        uk = und_kinds[it % len(und_kinds)]
+        shared = make_underlying(uk)
+        pays = [gen_payoff(rng) for _ in range(rng.randrange(2, 4))]
+        prods = [Product(shared, make_payoff(pay), maturity=1.0, notional=1.0) for pay in pays]
+        history = []
+        # first valuation: product 0 under LOG; second: ANOTHER product (never used before) under the identity representation
+        plan = [(0, True), (1, False)] + [(rng.randrange(len(prods)), rng.random() < 0.5) for _ in range(rng.randrange(1, 4))]
+        if it % 3 == 0:
+            rng.shuffle(plan)
+        for step, (k, lg) in enumerate(plan):
+            n = rng.randrange(2, 8)
+            times = gen_times(rng, n)
+            if uk[0] == "dt":
+                path = None
+                while path is None:
+                    path = gen_jump_path(rng, n, lg, uk[1])
+                arr = np.array(path)
+            else:
+                path = gen_spot_path(rng, n, False)
+                arr = np.log(np.array(path)) if lg else np.array(path)
+            t = np.array(times)
+            prods[k].update(rep_enum(lg))
+            u = float(prods[k].underlying_value(t, arr.copy(), arr.copy()))
+            v = float(prods[k](u)) if u == u and abs(u) != float("inf") else None
+            fresh = Product(make_underlying(uk), make_payoff(pays[k]), maturity=1.0, notional=1.0)
+            fresh.update(rep_enum(lg))
+            fu = float(fresh.underlying_value(t, arr.copy(), arr.copy()))
+            fv = float(fresh(fu)) if fu == fu and abs(fu) != float("inf") else None
+            history.append({"product": k, "payoff": list(pays[k]), "log": lg, "times": times, "path": path, "underlying": u, "value": v,
+                            "fresh_underlying": fu, "fresh_value": fv})
+            res.count(("shared-und", uk, step, k, lg, tuple(times), repr(path)), nontrivial=step >= 1, kind=f"products sharing one {uk[0]} underlying")
+            if (u, v) != (fu, fv):
+                res.violation("products sharing one underlying object: the value of a product depends on the representation another product was priced with before",
+                              {"kind": "shared-underlying", "underlying": list(uk), "valuations": history})
+                break
+    # a control variate sharing the main product's underlying object: priced with a LOG process, then with an identity process
+    for it in range(20 if tier == "quick" else 200):
+        shared = U.Spot()
+        main = Product(shared, make_payoff(("vanilla", 1, dy(rng, 70, 150, 8))), maturity=1.0)
+        ctrl = Product(shared, make_payoff(("vanilla", -1, dy(rng, 70, 150, 8))), maturity=1.0)
+        cv = ControlVariates(products=[ctrl], prices=[0.0])      # initialised below with a different class: the control computes its own underlying
+        runs = []
+        for lg in ([True, False, True] if it % 2 == 0 else [False, True, False]):
+            n = rng.randrange(2, 7)
+            times, path = gen_times(rng, n), gen_spot_path(rng, n, False)
+            arr = np.log(np.array(path)) if lg else np.array(path)
+            t = np.array(times)
+            main.update(rep_enum(lg))
+            for pr in cv.products:          # what both engines do before pricing: update, then (configuration.initialisation) the
+                pr.update(rep_enum(lg))     # control variates re-read their underlying functions
+            cv.initialisation(U.Asian)
+            um = float(main.underlying_value(t, arr, arr))
+            vm = float(main(um))
+            vc = float(np.asarray(cv.process(t, arr, arr, um)).ravel()[0])
+            want_m, want_c = max(path[-1] - main.payoff.strike, 0.0), max(ctrl.payoff.strike - path[-1], 0.0)
+            runs.append({"log": lg, "path": path, "main": vm, "control": vc, "want_main": want_m, "want_control": want_c})
+            res.count(("shared-cv", it, lg, tuple(path)), nontrivial=len(runs) > 1, kind="control variate sharing the main underlying")
+            if abs(vm - want_m) > 1e-9 * max(1.0, want_m) or abs(vc - want_c) > 1e-9 * max(1.0, want_c):
+                res.violation("a control variate sharing the main product's underlying object is valued in the wrong representation",
+                              {"kind": "shared-underlying-cv", "runs": runs})
+                break
+
+
 def shapes_oracle(res, rng, tier):
     """shapes the property quantifies over beyond flat scalar paths: (1, n) paths, vector underlyings, and the product classes
     that have no Coq model, each through the fresh-object (history-freeness) oracle"""
@@ -942,6 +1014,7 @@ def correspond(res):
     mlmc_oracle(res, rng, tier)
     representation_oracle(res, rng, tier)
     control_variates_oracle(res, rng, tier)
+    shared_underlying_oracle(res, rng, tier)
     shapes_oracle(res, rng, tier)
     lookback_oracle(res)
 
